@@ -22,17 +22,18 @@ type fsCall struct {
 }
 
 type fsCase struct {
-	Calls        []fsCall    `json:"calls"`
-	Fault        *Fault      `json:"fault,omitempty"`
-	Fault2       *Fault      `json:"fault2,omitempty"` // on the first connection established after the fault
-	Refused      int         `json:"refused,omitempty"`
-	RefuseHow    string      `json:"refuse_how,omitempty"` // how redials are refused: "" = TCP reset | http503 | http200 (an HTTP answer that is not the protocol switch)
-	OutageMs     int         `json:"outage_ms,omitempty"`  // with Refused > 0: redials keep being refused until the outage has lasted this long
-	BackoffMinMs int         `json:"backoff_min_ms,omitempty"`
-	BackoffMaxMs int         `json:"backoff_max_ms,omitempty"`
-	NoReconnect  bool        `json:"no_reconnect,omitempty"`
-	WithErrors   bool        `json:"with_errors,omitempty"`
-	Rules        []*HookRule `json:"rules,omitempty"`
+	Calls         []fsCall    `json:"calls"`
+	Fault         *Fault      `json:"fault,omitempty"`
+	Fault2        *Fault      `json:"fault2,omitempty"` // on the first connection established after the fault
+	Refused       int         `json:"refused,omitempty"`
+	RefuseHow     string      `json:"refuse_how,omitempty"`      // how redials are refused: "" = TCP reset | http503 | http200 (an HTTP answer that is not the protocol switch)
+	NoClientPings bool        `json:"no_client_pings,omitempty"` // blackhole cases: the client is built with WithPingInterval(0)
+	OutageMs      int         `json:"outage_ms,omitempty"`       // with Refused > 0: redials keep being refused until the outage has lasted this long
+	BackoffMinMs  int         `json:"backoff_min_ms,omitempty"`
+	BackoffMaxMs  int         `json:"backoff_max_ms,omitempty"`
+	NoReconnect   bool        `json:"no_reconnect,omitempty"`
+	WithErrors    bool        `json:"with_errors,omitempty"`
+	Rules         []*HookRule `json:"rules,omitempty"`
 }
 
 type fsCallOut struct {
@@ -95,6 +96,8 @@ func runFaultSim(c fsCase) *fsOutcome {
 	opts := RigOpts{BackoffMin: mn, BackoffMax: mx, NoReconnect: c.NoReconnect, WithErrors: c.WithErrors}
 	if c.needsTimeouts() {
 		opts.ClientTimeout, opts.ClientPing, opts.ServerPing = 400*time.Millisecond, 100*time.Millisecond, 80*time.Millisecond
+		// NoClientPings: the client relies on its read deadline alone (the server's pings keep a healthy link alive)
+		opts.ClientPingOff = c.NoClientPings
 	}
 	rig, err := NewRig(opts)
 	if err != nil {
